@@ -24,7 +24,11 @@ WIDE = {"w": DIR, **{f"w/file{i:02d}.bin": b"content %d" % i for i in range(14)}
         "w/s2/x.txt": b"x2", "w/s3": DIR, "top.txt": b"top"}
 SAMENAME = {"a": DIR, "a/x": DIR, "a/x/f.txt": b"in a", "b": DIR, "b/x": DIR, "b/x/f.txt": b"in b", "c": DIR, "c/x": DIR,
             "c/x/f.txt": b"in a", "x": DIR, "x/f.txt": b"top x", "a/x/deep": DIR, "a/x/deep/x": DIR, "a/x/deep/x/f.txt": b"deep"}
-SPECIAL_TREES = [WIDE, SAMENAME]
+# names that are not in Unicode NFC form next to their composed twins (different names on Linux): the structure hash binds the
+# exact name bytes
+UNI = {"e\u0301.txt": b"decomposed", "\u00e9.txt": b"composed", "u\u0308 dir": DIR, "u\u0308 dir/f.txt": b"in nfd dir",
+       "\u00fc dir": DIR, "\u00fc dir/f.txt": b"in nfc dir", "\u212b.bin": b"angstrom sign", "\uf900.bin": b"cjk compatibility"}
+SPECIAL_TREES = [WIDE, SAMENAME, UNI]
 
 
 def synthetic(ctx, fmt):
@@ -295,7 +299,7 @@ def main(tier, seed):
                    "create; every <directoryhash>/<roothash> value compared with the 12-line reference recursion; nested child at "
                    "every directory; reversed directory listing; ignored entries (.DS_Store, -i *.tmp) present; verify -dh -co "
                    "output; metamorphic in-place rename / content edit of every entry on freshly sealed trees; trees whose c4 file digest / "
-                   "per-child structure digest starts with a zero byte; the directory-hash context driven directly with synthetic child "
+                   "per-child structure digest starts with a zero byte; names that are not in Unicode NFC form next to their composed twins; the directory-hash context driven directly with synthetic child "
                    "digests (leading zero bytes, extremes) in every format"}
     return eng.finish(cov, _eval_only)
 
